@@ -580,3 +580,39 @@ Proof.
   pose proof minnormal_le1 as M. rewrite (f2r_lit 3%float 3 eq_refl).
   split; [vm_compute; reflexivity|]. split; [lra|]. split; [vm_compute; reflexivity|lra].
 Qed.
+
+(* ================= the side condition is needed ================= *)
+(* x = [2^-600], y = [0]: every float is finite, the square underflows to 0, the closed form is 2^-1200 > 0 *)
+Lemma u64_le_quarter : u64 <= / 4.
+Proof.
+  destruct b64_defs as (_ & _ & -> & _).
+  assert (H : 4 <= 2 ^ 53).
+  { change 53%nat with (2 + 51)%nat. rewrite pow_add. assert (1 <= 2 ^ 51) by (apply pow_R1_Rle; lra). nra. }
+  apply Rinv_le_contravar; lra.
+Qed.
+
+Lemma capstone_squared_euclidean_refuted_without_condition :
+  exists (x y : list PrimFloat.float) (f : PrimFloat.float),
+    Forall (fun a => ffin a = true) x /\ Forall (fun a => ffin a = true) y /\ length x = length y /\ (1 <= length x)%nat
+    /\ (Z.of_nat (length x) <= 2 ^ 53)%Z
+    /\ metric_fltc ir_squared_euclidean x y = Some f
+    /\ ~ Rabs (f2r f - sp_squared_euclidean (map f2r x) (map f2r y))
+         <= ((1 + u64) ^ (length x + 2) - 1) * sp_squared_euclidean (map f2r x) (map f2r y).
+Proof.
+  exists [0x1p-600%float], [0%float], 0%float.
+  split; [repeat constructor|]. split; [repeat constructor|]. split; [reflexivity|]. split; [cbn; lia|].
+  split; [vm_compute; discriminate|]. split; [vm_compute; reflexivity|].
+  cbn [map length Nat.add]. rewrite (f2r_lit 0%float 0 eq_refl).
+  destruct (flt_is_Q_sound 0x1p-600%float (1 # (2 ^ 600)) eq_refl) as [_ E]. rewrite E.
+  assert (V : 0 < Q2R (1 # 2 ^ 600)).
+  { unfold Q2R. cbn [Qnum Qden]. apply Rmult_lt_0_compat; [lra|]. apply Rinv_0_lt_compat. apply IZR_lt. reflexivity. }
+  set (v := Q2R (1 # 2 ^ 600)) in *.
+  unfold sp_squared_euclidean, sum2, sum. cbn [map2 fold_right].
+  assert (S : 0 < (v - 0) ^ 2 + 0) by nra.
+  set (s := (v - 0) ^ 2 + 0) in *.
+  replace (0 - s) with (- s) by ring. rewrite Rabs_Ropp, Rabs_pos_eq by lra.
+  pose proof u64_le_quarter as U. pose proof u64_range as [U0 _].
+  intros H.
+  assert (K : (1 + u64) ^ 3 - 1 < 1) by nra.
+  nra.
+Qed.
